@@ -180,6 +180,17 @@ CHECKS = [
         "every object is pickled and compared by deep dump.",
         "note": "trusted: mc/dump.py deep dump, ref/bls.py and ref/layout.py for set equality; catalogue is finite",
     },
+    {
+        "property_id": "C19",
+        "level": "exploration",
+        "design_ref": "DESIGN.md 4/C19",
+        "technique": "exhaustive differential enumeration: every definition outside the reference-computed closure x every replacement text of a catalogue, outcome/open/print observations compared with the unmodified run",
+        "text": "22 namespace trees and every acyclic 3-node dependency graph x read_namespace and read_files for every single target and the full set x every "
+        "definition file outside the closure x 42 replacement texts (garbage, one per rule class, failing assert, @print, other kind/extent/sealing than "
+        "sibling versions, colliding port-IDs, crashing corner cases): the deep dump of the result or the (class, path, line) of the error must not "
+        "change, the file must never be opened (module-global open replaced) and the print handler must never fire for it.",
+        "note": "trusted: ref/ns.py closure (validated against direct/transitive in C09/C10); replacements are a finite catalogue",
+    },
 ]
 
 _TODO = "check not built yet in this round (see DESIGN.md 9, implementation order)"
